@@ -97,7 +97,7 @@ exec_spec(const char *kind, const hx_spec *spp)
                                 tr_int("canary", ga_check_canaries(&bad));
                                 tr_int("srcmod", hx_job_check_bounds(&a));
                                 /* in-place twin */
-                                if (sp.cm != IMB_CIPHER_NULL && sp.ha != IMB_AUTH_DOCSIS_CRC32 &&
+                                if (sp.cm != IMB_CIPHER_NULL && sp.ha != IMB_AUTH_DOCSIS_CRC32 && sp.ha != IMB_AUTH_PON_CRC_BIP &&
                                     sp.cm != IMB_CIPHER_CBCS_1_9) {
                                         hx_spec sp2 = sp;
                                         sp2.inplace = !sp.inplace;
